@@ -342,3 +342,77 @@ def by_history(rows):
         r["_idx"] = i
         h.setdefault(r["hist"], []).append(r)
     return h
+
+
+# ------------------------------------------------------------------------------------------------ K-sql(sqlite)
+def impl_term(rec):
+    """the implementation's output of one migration as a Gallina term of type result (list (list stmt)) gen_error;
+    raises sqlparse.Unparsed"""
+    gf = generation_failure(rec)
+    if gf == "panic":
+        return "(Err GenPanic)"
+    if gf == "error":
+        return "(Err GenError)"
+    per_action = []
+    for a in rec["actions"]:
+        per_action.append("[" + "; ".join(sqlparse.gallina(sqlparse.parse_action_statement(s, a["kind"])) for s in a["sql"]) + "]")
+    return "(Ok [" + ";\n      ".join(per_action) + "])"
+
+
+def write_sql_shards(rows, d, per_shard, stem="cases_sql", header="From VV.SQLITE Require Import Corr.\n",
+                     tail="Eval vm_compute in sql_mismatches_from shard_base cases.\n", ty="sql_case", term=None):
+    """returns (idx_map: shard-local position -> row index, unparsed: [(row index, message)])"""
+    idx_map, unparsed, cases = [], [], []
+    for i, r in enumerate(rows):
+        try:
+            t = term(r) if term else "(mkSqlCase %s\n   %s\n   %s)" % (r["g_baseline"], r["g_actions"], impl_term(r))
+        except sqlparse.Unparsed as e:
+            unparsed.append((i, str(e)[:300]))
+            continue
+        idx_map.append(i)
+        cases.append(t)
+    for si in range(0, len(cases), per_shard):
+        chunk = cases[si:si + per_shard]
+        body = header + "\nDefinition shard_base : nat := %d.\nDefinition cases : list %s := [\n%s\n].\n%s" % (si, ty, ";\n".join(chunk), tail)
+        open(os.path.join(d, "%s_%03d.v" % (stem, si // per_shard)), "w").write(body)
+    return idx_map, unparsed
+
+
+def run_ksql(rows, d, per_shard):
+    """K-sql(sqlite) inside Coq. Returns dict(mismatches=[row idx], unparsed=[..], errors=[shard logs])"""
+    idx_map, unparsed = write_sql_shards(rows, d, per_shard)
+    res = vflib.run_shards(LAYER, d, "cases_sql_*.v")
+    mism, errors = [], []
+    for f, rc, o, dt in res:
+        if rc != 0:
+            errors.append({"shard": os.path.basename(f), "log": o[-1500:]})
+            continue
+        blocks = vflib.parse_eval_outputs(o)
+        for k in vflib.parse_nat_list(blocks[0] if blocks else ""):
+            mism.append(idx_map[k])
+    return {"mismatches": sorted(mism), "unparsed": unparsed, "errors": errors, "cases": len(idx_map)}
+
+
+# ------------------------------------------------------------------------------------------------ known-finding classifiers (evaluated in Coq)
+def classify(d, idx_map, per_shard, row_idxs, classifiers, stem="cases_sql", module="Known"):
+    """Evaluate Gallina classifiers `schema -> list action -> bool` on the cases with row indices row_idxs.
+    Returns {row idx: {classifier: bool}} or None when Coq fails."""
+    if not row_idxs or not classifiers:
+        return {}
+    inv = {g: k for k, g in enumerate(idx_map)}
+    rows = [i for i in row_idxs if i in inv]
+    shards = sorted({inv[i] // per_shard for i in rows})
+    lines = ["From VV.SQLITE Require Import Corr %s." % module] + ["From Cases Require %s_%03d." % (stem, s) for s in shards]
+    for i in rows:
+        k = inv[i]
+        lines.append("Eval vm_compute in match nth_error %s_%03d.cases %d with Some c => [%s] | None => [] end." % (
+            stem, k // per_shard, k % per_shard, "; ".join("%s (q_baseline c) (q_actions c)" % c for c in classifiers)))
+    f = os.path.join(d, "classify_%s.v" % hashlib.sha1(" ".join(classifiers).encode()).hexdigest()[:8])
+    open(f, "w").write("\n".join(lines) + "\n")
+    rc, out, _ = vflib.sh(["timeout", "900", "coqc", "-noglob"] + vflib.q_flags(LAYER) + ["-Q", d, "Cases", f], cwd=d, timeout=960)
+    if rc != 0:
+        return None
+    res = {}
+    for i, b in zip(rows, vflib.parse_eval_outputs(out)):
+        res[i] = dict(zip(classifiers, vflib.parse_bool_list(b)))
+    return res
